@@ -121,6 +121,7 @@ class State:
         s.cond = list(self.cond)
         s.effects = list(self.effects)
         s.ret, s.returned = self.ret, self.returned
+        s.callee_locals = getattr(self, 'callee_locals', None)
         return s
 
 
@@ -195,6 +196,7 @@ class Reader:
         for s in states:
             out += self.ex(fn.get('body'), s, ctx)
         for s in out:
+            s.callee_locals = s.locals        # final locals of the function just read (for rules that inspect them)
             s.locals, s.alias = dict(saved_locals), dict(saved_alias)
         return out
 
@@ -680,7 +682,7 @@ class Reader:
         if k == 'Op' and e['op'] in ('=', '+=', '-=', '*=', '/=') and len(e.get('args', [])) == 2 and \
                 (not e.get('inrepo') or (self.facts.functions.get(e.get('fk')) or {}).get('body') is None):
             lv = self.lvalue(e['args'][0], st, ctx)
-            if lv and lv[0] in ('field', 'local'):
+            if lv and lv[0] in ('field', 'local', 'localmember'):
                 out = []
                 for (r, s2) in self.ev(e['args'][1], st, ctx):
                     if e['op'] != '=':
@@ -690,12 +692,14 @@ class Reader:
                     out.append((r, s2))
                 return out
             l0 = strip_casts(e['args'][0])
-            if lv is None and l0.get('k') in ('Op', 'MCall') and e['op'] == '=':
+            if lv is None and l0.get('k') in ('Op', 'MCall'):
                 out = []
                 for (r, s2) in self.ev(e['args'][1], st, ctx):
                     try:
-                        out += self.store_through(l0, r, '=', s2, ctx)
+                        out += self.store_through(l0, r, e['op'], s2, ctx)
                     except Unsupported:
+                        if e['op'] != '=':
+                            raise
                         out.append((Opaque(pp(e)), s2))
                 return out
         if k == 'MCall' and name == 'count' and 'std::chrono::duration' in (e.get('cls') or '') and not args:
